@@ -8,6 +8,8 @@
 EXTENDS Domains, TLC, Json
 
 CONSTANT Deltas
+DeltasQuick == {-2, -1, 1, 2, 7}
+DeltasThorough == {-9, -4, -3, -2, -1, 1, 2, 3, 4, 7, 16, 255}
 VARIABLES t, delta, mode
 vars == <<t, delta, mode>>
 
